@@ -31,15 +31,6 @@ theorem transpose_commutes_pointwise (f : List α → α) (p : List Nat) (hp : v
     pw f (ts.map (transpose p)) = transpose p (pw f ts) :=
   pw_transpose f p hp ts n h hex
 
-theorem erase_eval : ∀ t : Term, eval I ρ t.erase = eval I ρ t := by
-  intro t
-  induction t with
-  | leaf id ann s => rfl
-  | boolc b => rfl
-  | nil => rfl
-  | cons t ts iht ihts => simp [erase, eval, iht, ihts]
-  | app h ann args ih => simp [erase, eval, ih]
-
 /-- **Normalisation is sound**: same meaning, and annotations stay sound. -/
 theorem norm_sound (L : Laws I WT) (hWT : ∀ t x, x ∈ eval I ρ t → WT x) :
     ∀ t : Term, AnnotSound I ρ t → eval I ρ (norm t) = eval I ρ t ∧ AnnotSound I ρ (norm t) := by
@@ -94,6 +85,10 @@ def demoI : Interp Int where
     | "Relu", [x] => max x 0
     | "Add", [x, y] => x + y
     | "Max", [x, y] => max x y
+    | "Mul", [x, y] => x * y
+    | "Sigmoid", [x] => x          -- any scalar function will do for the demo
+    | "Swish", [x] => x * x
+    | "Not", [x] => 1 - x
     | _, _ => 0
   castS := fun _ _ v => v
   opq := fun _ _ _ _ => ⟨0, 0, fun _ => 1, fun _ => 0⟩
@@ -111,6 +106,16 @@ theorem demoI_laws : Laws demoI (fun _ => True) where
     · rfl
     · rfl
     · rfl
+  not_const := by
+    intro b
+    apply Tensor.ext'
+    · rfl
+    · simp [pw, maxRank, demoI]
+    · funext j; simp [pw, maxRank, bdim, bstep, demoI]
+    · funext i; cases b <;> simp [pw, maxRank, demoI]
+  swish := by intro v; simp [demoI]
+  swish' := by intro v; simp [demoI]
+  reduce_transpose := by intros; rfl
 
 def annF32 (sh : List Nat) : Ann := ⟨some 1, some (sh.map Dim.known)⟩
 
